@@ -578,6 +578,48 @@ def instantiate_fn(fs, item, em):
                     k += 1
                 if not found:
                     raise GenError("%s: extend rule: statement %d not found" % (fnkey, n))
+            elif rule in ("iter_any", "iter_all", "iter_position"):
+                meth = rule[5:]
+                cnt = 0
+                found = False
+                k = lo
+                while k + 5 < hi:
+                    if (toks[k].text == "." and toks[k + 1].text == "iter" and toks[k + 2].text == "(" and toks[k + 3].text == ")"
+                            and toks[k + 4].text == "." and toks[k + 5].text == meth and toks[k + 6].text == "("):
+                        cnt += 1
+                        if cnt == max(n, 1):
+                            # receiver: simple postfix chain going backwards
+                            r = k
+                            while True:
+                                p_ = toks[r - 1]
+                                if p_.kind == "ident" or p_.text in (".", "::", "?"):
+                                    if p_.kind == "ident" and p_.text in ("if", "let", "return", "in", "match", "while", "else"):
+                                        break
+                                    r -= 1
+                                elif p_.text in (")", "]"):
+                                    d_ = 0
+                                    q = r - 1
+                                    while True:
+                                        if toks[q].text in (")", "]"):
+                                            d_ += 1
+                                        elif toks[q].text in ("(", "["):
+                                            d_ -= 1
+                                            if d_ == 0:
+                                                break
+                                        q -= 1
+                                    r = q
+                                else:
+                                    break
+                            recv = text[toks[r].start:toks[k - 1].end]
+                            close = match_close(toks, k + 6)
+                            edits.append((toks[r].start, toks[k + 6].end, "slice_%s(%s.as_slice(), " % (meth, recv)))
+                            log.append("R-iter-%s: `%s.iter().%s(CL)` rewritten to `slice_%s(%s.as_slice(), CL)` (line %d)" % (
+                                meth, recv, meth, meth, recv, item.line0 + text.count("\n", 0, toks[k].start)))
+                            found = True
+                            break
+                    k += 1
+                if not found:
+                    raise GenError("%s: %s rule: occurrence %d not found" % (fnkey, rule, n))
             elif rule == "subst":
                 # closed, logged textual rewrite:  rule subst :: "<from>" :: "<to>" :: why
                 frm, to = pos[0].strip('"'), pos[1].strip('"')
